@@ -110,6 +110,30 @@ func keyOf(k combo, label string, small int64) (kyber.Scalar, kyber.Point) {
 func runBLS(c *vf.Check, k combo) {
 	pk := "C09/bls/" + k.name()
 	sch := k.bls()
+	// a family of 400 short messages under one key: the hash-to-group candidates with rare shapes (coordinates with
+	// leading zero bytes, several rejected candidates) occur with probability 2^-7 .. 2^-8 per message
+	for blk := 0; blk < 400; blk += 100 {
+		blk := blk
+		id := fmt.Sprintf("bls %s key=r1 messages \"message i\" for i in [%d,%d)", k.name(), blk, blk+100)
+		c.Case(id, pk, func(x *vf.Ctx) {
+			priv, pub := keyOf(k, "r1", 0)
+			for i := blk; i < blk+100; i++ {
+				msg := []byte(fmt.Sprintf("message %d", i))
+				sig, err := sch.Sign(priv, msg)
+				c.Eval(1)
+				if err != nil {
+					x.Failf(pk+"/sign", "%s: Sign(%q): %v", id, msg, err)
+					return
+				}
+				if err := sch.Verify(pub, msg, sig); err != nil {
+					x.Failf(pk+"/honest-rejected", "%s: honest signature on %q rejected: %v", id, msg, err)
+					return
+				}
+			}
+		})
+		c.Count("transitions", 100)
+		c.Nontrivial(id)
+	}
 	msgs := [][]byte{{}, []byte("a"), bytes.Repeat([]byte("0123456789"), 30)}
 	for ki, kn := range []string{"1", "r1", "r2"} {
 		for mi, msg := range msgs {
